@@ -323,7 +323,7 @@ def make_classifier(name, rs, opt=0):
     if name == "IBOSS":
         from sktime.classification.dictionary_based import IndividualBOSS
         return IndividualBOSS(window_size=(10, 12)[opt], word_length=(8, 6)[opt],
-                              norm=bool(opt), random_state=rs)
+                              norm=not opt, random_state=rs)
     if name == "CBOSS":
         from sktime.classification.dictionary_based import ContractableBOSS
         return ContractableBOSS(n_parameter_samples=(6, 10)[opt], max_ensemble_size=(3, 5)[opt],
